@@ -37,7 +37,12 @@ def run(ctx):
     ctx.evaluations += len(lines) + r["path_points"]
     ctx.nontrivial_extra += len(lines)
     ctx.extra.update({"integers": r["integers"], "fractions": r["fractions"], "path_points": r["path_points"],
-                      "max_deviation_on_paths": r["max_deviation"], "bound": r["bound"]})
+                      "max_deviation_on_paths": r["max_deviation"], "bound": r["bound"],
+                      "forms_written_on_paths": r.get("forms_written")})
+    # vacuity guard: the long paths really were written with every line and curve form
+    for form in ("hlineto", "vlineto", "rlineto", "hvcurveto", "vhcurveto", "rrcurveto"):
+        if (r.get("forms_written") or {}).get(form, 0) < 20:
+            raise core.Broken("vacuity: the long paths contain fewer than 20 %s commands: %s" % (form, r.get("forms_written")))
     ctx.sample(r["axes"][0])
     ctx.sample(json.loads(lines[0]))
     ctx.sample(json.loads(lines[-1]))
